@@ -108,6 +108,9 @@ class EqVert(Vertex):
 def make_reject(target):
     """closures created from one lambda: same code object, different captured value"""
     return lambda e, v: v is not target
+def make_default_param_filter(answer):
+    """a one-argument filter (the form find_links takes) written with a defaulted second parameter - the closure-by-default idiom"""
+    return lambda e, _answer=answer: _answer
 class UnhashableCallable:
     """a callable user object that defines __eq__ without __hash__ (so it cannot be a dictionary key)"""
     def __init__(self, answer):
